@@ -161,12 +161,21 @@ func (j *jobLog) Write(p []byte) (int, error) {
 	return len(p), nil
 }
 
+// txnRec: the harness's own bookkeeping of an anchored transaction (when it was anchored, when its version was
+// superseded) - only to decide whether the anchor is still inside the retention the model speaks about
+type txnRec struct {
+	anchor int64
+	sup    int64 // -1: not superseded
+	voided bool
+}
+
 type reloadWorld struct {
 	acc     *config.TxnPoliciesAccessor
 	jl      *jobLog
 	nowMs   int64
 	dues    []int64 // due time of every registered job
 	seen    int64   // registrations accounted for in dues
+	txns    map[string]*txnRec
 	sync    int64   // "finished" log lines written synchronously by immediate un-manages (not jobs)
 	reloads int
 }
@@ -188,7 +197,7 @@ var origin = time.Unix(1_700_000_000, 0)
 func newReloadWorld() *reloadWorld {
 	startAdmin()
 	admin.reset()
-	w := &reloadWorld{jl: &jobLog{}}
+	w := &reloadWorld{jl: &jobLog{}, txns: map[string]*txnRec{}}
 	log.Logger = zerolog.New(w.jl)
 	zerolog.SetGlobalLevel(zerolog.DebugLevel)
 	contextmanager.Get().SetMockClock().GetMockClock().Set(origin)
@@ -289,6 +298,14 @@ func (w *reloadWorld) reload(glob bool, eps []polDecl, immediately bool, o *prot
 	}
 	w.reloads++
 	w.settleRegistrations()
+	for _, t := range w.txns {
+		if t.sup < 0 {
+			t.sup = w.nowMs
+		}
+		if immediately {
+			t.voided = true
+		}
+	}
 	o.Count("L4-reload")
 	return fmtRequest(config.BuildHAProxyEndpointsRequest(pc))
 }
@@ -342,6 +359,41 @@ func (w *reloadWorld) managed() string {
 		fl = strings.Join(fe, ";")
 	}
 	return "all=" + all + " n=" + itoa(len(keys)) + " set=" + l + " fma=" + fma + " feps=" + fl
+}
+
+// anchor: the request leg of a transaction reaches the engine (real TxnPoliciesAccessor.GetTxnPoliciesData)
+func (w *reloadWorld) anchor(id string) string {
+	if _, ok := w.txns[id]; !ok {
+		w.acc.GetTxnPoliciesData(config.TxnID(id))
+		w.txns[id] = &txnRec{anchor: w.nowMs, sup: -1}
+	}
+	return "ok"
+}
+
+// txnView: what the engine would apply to the response leg NOW (the request of the policies data the real accessor
+// serves the transaction from) next to what the proxy manages
+func (w *reloadWorld) txnView(id string, o *proto.Out) string {
+	t, ok := w.txns[id]
+	if !ok || t.voided || w.nowMs >= t.anchor+ttlMs || t.sup >= 0 && w.nowMs >= t.sup+ttlMs {
+		return "expired"
+	}
+	pd := w.acc.GetTxnPoliciesData(config.TxnID(id))
+	req := config.BuildHAProxyEndpointsRequest(&pd.Config)
+	te := make([]string, 0, len(req.ManagedEndpoints))
+	for _, e := range req.ManagedEndpoints {
+		te = append(te, proto.Enc(e.Endpoint))
+	}
+	sort.Strings(te)
+	tma, tl := "0", "-"
+	if req.ManageAll {
+		tma = "1"
+	}
+	if len(te) > 0 {
+		tl = strings.Join(te, ";")
+	}
+	m := w.managed()
+	o.Count("L4-txn-view")
+	return m[:strings.Index(m, " fma=")] + " tma=" + tma + " teps=" + tl
 }
 
 func (w *reloadWorld) fail(put, del int) string {
